@@ -321,5 +321,16 @@ def _vp(ctx, desc):
         each = [float(d(a, b, q)) for q in costs]
         if tuple(vec.shape) != (len(costs),) or not np.allclose(vec.numpy(), each, atol=eps):
             return ctx.violation("vp.vector_cost", "tensor of costs disagrees with scalar costs", desc)
+        # the cost limits also hold when they are entries of a cost tensor, for every pair incl. d(x, x) and trains that
+        # share their last spike time
+        lim = torch.tensor([0.0, costs[0], float("inf")], dtype=torch.float64)
+        shared = torch.cat([c[:-1], a[-1:]]) if len(trains[0]) and len(trains[2]) else c
+        for x, y, tagp in ((a, b, "a_b"), (a, a, "x_x"), (a, shared, "shared_last_spike")):
+            n1, m1 = x.numel(), y.numel()
+            v = d(x, y, lim)
+            ctx.count("vp_limit_entries_in_cost_tensor")
+            if tuple(v.shape) != (3,) or float(v[0]) != abs(n1 - m1) or float(v[2]) != n1 + m1 or not (abs(n1 - m1) - eps <= float(v[1]) <= n1 + m1 + eps):
+                return ctx.violation(f"vp.cost_limits_in_tensor.{tagp}",
+                                     f"cost tensor [0, q, inf] gave {v.tolist()} for trains of {n1} and {m1} spikes (documented: |n-m| at 0, n+m at inf)", desc)
     except Exception as e:  # noqa: BLE001
         ctx.violation(ctx.exc_signature(e, "vp"), f"{type(e).__name__}: {str(e)[:120]}", desc)
